@@ -67,7 +67,9 @@ class Counter(dict):
 
     def merge(self, other):
         for k, v in other.items():
-            if isinstance(v, (int, float)):
+            if isinstance(v, (int, float)) and k.startswith("max_"):
+                self[k] = max(self.get(k, 0), v)
+            elif isinstance(v, (int, float)):
                 self[k] = self.get(k, 0) + v
             elif isinstance(v, dict):
                 d = self.setdefault(k, {})
